@@ -243,20 +243,27 @@ def r2_bracketing(r, facts):
 def r3_sq_wake(r, facts):
     f = facts.fn(SQ_WAKE)
     eb = ExprBuilder(f, multi='phi')
-    cs = bool_call_switches(f, WAKE)
-    if not r.require(len(cs) == 1, 'Submissions::wake', 'polling.wake() result not tested', f.where()):
+    # decided by value: with polling.wake() == false no message is sent, with true every path to a return sends one
+    # (`if !wake() { return }`, a flag, or `match (is_blocked, single_issuer) {..}` alike)
+    wk = [(l, t) for l, t in f.calls_to(WAKE)]
+    if not r.require(len(wk) == 1 and wk[0][1].get('target') is not None and not wk[0][1]['dest']['p'], 'Submissions::wake', 'polling.wake() call not found', f.where()):
         return
-    c = cs[0]
+    wl, wt = wk[0]
+    start = [Loc(wt['target'], 0)]
     adds = f.calls_to(life.ADD)
     regs = [(l, t) for l, t in f.calls() if (t.get('callee') or '').endswith('io_uring_register')]
     enters = f.calls_to(ENTER)
     r.require(len(adds) == 1 and len(regs) == 1 and len(enters) >= 1, 'Submissions::wake/sites', 'add/io_uring_register/enter sites not found (%d/%d/%d)' % (len(adds), len(regs), len(enters)), f.where())
     sends = [l for l, _ in adds] + [l for l, _ in regs]
-    hit = f.forward_paths_hit([Loc(c['false'], 0)], sends)
-    r.inst('not polling => no message', f.where(c['call_loc']))
+    d = wt['dest']['l']
+    hit = f.forward_paths_hit(start, sends, env0={d: 0})
+    r.inst('not polling => no message', f.where(wl))
     r.require(hit is None, 'Submissions::wake/needless', 'a ring message is sent although the ring is not polling', f.where())
-    hit = f.forward_paths_hit([Loc(c['true'], 0)], f.returns(), blockers=sends)
+    hit = f.forward_paths_hit(start, f.returns(), blockers=sends, env0={d: 1})
     r.require(hit is None, 'Submissions::wake/skipped', 'polling.wake() said a message is needed but a path returns without sending one', f.where(hit[0]) if hit else '')
+    # and the answer is looked at at all: with false some return is reachable without a send
+    r.require(f.forward_paths_hit(start, f.returns(), blockers=sends, env0={d: 0}) is not None, 'Submissions::wake', 'polling.wake() result not tested', f.where())
+
     # request shape
     cl = facts.fn(SQ_WAKE + '::{closure#0}')
     fm = sqe.flowmap(cl, facts)
